@@ -19,9 +19,9 @@ func init() { mon.Register("C20", buildC20) }
 // Elements are treated as immutable values (the harness never mutates an
 // element variant in place), so shallow versus deep copies are unobservable.
 type mvar struct {
-	val     Val   // scalar value or "A" with E = elements
-	tainted bool  // shares its list with another variant by Assign: index writes are don't-care
-	origin  int   // id of the value it was last cloned/assigned from (for equality expectations)
+	val     Val  // scalar value or "A" with E = elements
+	tainted bool // shares its list with another variant by Assign: index writes are don't-care
+	origin  int  // id of the value it was last cloned/assigned from (for equality expectations)
 }
 
 type c20State struct {
@@ -388,6 +388,14 @@ func c20Run(c *mon.Case, ops string) {
 	}
 }
 
+func c20Sample(payload string) any {
+	var d []string
+	for i := 0; i < len(payload); i++ {
+		d = append(d, c20Ops[int(payload[i])%len(c20Ops)].name)
+	}
+	return strings.Join(d, "; ")
+}
+
 func buildC20(cfg *mon.Config) []*mon.Sub {
 	hostRule := "every supported Go host type at boundary values through NewVariant/SetAsObject and the typed constructors and setters: the variant reports the matching type and returns the value unchanged (bit-exact for floats, same instant and zone for times); caller-side list mutation is invisible; a comparable struct and an uncomparable map become Object; Equals on each is total and reflexive except NaN"
 	host := &mon.Sub{
@@ -456,7 +464,7 @@ func buildC20(cfg *mon.Config) []*mon.Sub {
 			}
 			rec(0)
 		},
-		Exec: func(c *mon.Case) { c20Run(c, c.Payload) },
+		Exec: func(c *mon.Case) { c20Run(c, c.Payload) }, Sample: c20Sample,
 	}
 	rnd := &mon.Sub{
 		Name: "operation-sequences-random", Rule: "seeded random sequences of up to 40 of the same operations on all three variants and both lists, same oracle; distinct by hash",
@@ -471,7 +479,7 @@ func buildC20(cfg *mon.Config) []*mon.Sub {
 				emit(string(b))
 			}
 		},
-		Exec: func(c *mon.Case) { c20Run(c, c.Payload) },
+		Exec: func(c *mon.Case) { c20Run(c, c.Payload) }, Sample: c20Sample,
 	}
 	return []*mon.Sub{host, exh, rnd}
 }
